@@ -8,6 +8,7 @@ import re
 from mir import fmt, walk, strip_refs, callee_names, norm, call_target
 from flow import guards, dom_guards, control_deps, cond_truth
 from binser import for_loops, enclosing_loops, rpo_index
+from common import Report
 
 EXPLANATION = ("Reachability from the 8 parser and 5 serializer entry points over the resolved call graph; every "
                "Assert terminator, explicit panic, unwrap/expect, input-sized allocation and raw index of the input "
@@ -124,7 +125,7 @@ class Prov:
         if tag == "call":
             nm = t[1]
             sh = nm.rsplit("::", 1)[-1]
-            m = re.search(r"read_(u8|u16|u32|u64|i8|i16|i32|i64)", sh)
+            m = re.search(r"(?:read|decode)_(u8|u16|u32|u64|i8|i16|i32|i64)", sh)
             if m:
                 r = ty_range(m.group(1))
                 return (r[0], r[1], {"input"})
@@ -176,6 +177,9 @@ class Prov:
                 return (r[0], r[1], tags)
             # an element taken out of a stream read keeps the read's own interval (e.g. Continue payload)
             if "input" in inner[2] and tag in ("field", "downcast"):
+                tr = ty_range(ty)
+                if tr and (inner[0] < tr[0] or inner[1] > tr[1]):
+                    return (tr[0], tr[1], inner[2])
                 return (inner[0], inner[1], inner[2])
             return (r[0], r[1], inner[2])
         if tag == "var":
@@ -284,12 +288,52 @@ def run(facts, rep, ctx):
     rep.count("bodies_reachable_from_serializers", len(sids))
     if len(pids) < 40:
         rep.inconc(R0, "only %d bodies reachable from the parsers: call graph looks broken" % len(pids))
+    # Functions of the confirmed tree are analysed in their *analysis view* (new helpers, visible closures and
+    # loop adaptors expanded in place), so a bound established in the caller is visible at the use inside a new
+    # helper and vice versa.  Code that only exists inlined (new helpers; closures expanded at their call) is also
+    # analysed on its own, but what is found there counts only when the same site is also flagged in a view that
+    # contains it in context: a helper may rely on its callers' checks.
+    names, _ids = facts.known()
+    views = {}
+    inlined_somewhere = set()
+    todo = []
     for bid in sorted(pids | sids):
-        b = facts.bodies[bid]
-        if "fmt::Debug" in b.name or "fmt::Display" in b.name or "std::error::Error" in b.name:
+        raw = facts.bodies[bid]
+        if "fmt::Debug" in raw.name or "fmt::Display" in raw.name or "std::error::Error" in raw.name:
             continue
-        is_parser = bid in pids
-        analyse_body(facts, rep, b, is_parser, (R1, R2, R3, R4, R5), reach=pids | sids)
+        todo.append(raw)
+        if raw.kind != "Closure" and raw.name in names:
+            v = facts.body(raw.id)
+            views[raw.id] = v
+            inlined_somewhere |= set(getattr(v, "inlined_ids", ()) or ())
+    rules = (R1, R2, R3, R4, R5)
+    provisional = []
+    for raw in todo:
+        is_parser = raw.id in pids
+        if raw.id in views:
+            analyse_body(facts, rep, views[raw.id], is_parser, rules, reach=pids | sids)
+        elif raw.id in inlined_somewhere:
+            sub = Report(rep.pid)
+            sub.rules = {k: dict(v) for k, v in rep.rules.items()}
+            analyse_body(facts, sub, raw, is_parser, rules, reach=pids | sids)
+            provisional.extend((raw, v) for v in sub.violations)
+            for d in sub.inconclusive:
+                rep.inconc(d["rule"], d["reason"])
+        elif raw.kind == "Closure":
+            analyse_body(facts, rep, raw, is_parser, rules, reach=pids | sids)
+        else:
+            sub = Report(rep.pid)
+            sub.rules = {k: dict(v) for k, v in rep.rules.items()}
+            analyse_body(facts, sub, raw, is_parser, rules, reach=pids | sids)
+            for v in sub.violations:
+                rep.inconc(v["rule"], "in the new helper %s, which could not be expanded into its callers: %s" % (raw.name, v["msg"]))
+            for d in sub.inconclusive:
+                rep.inconc(d["rule"], d["reason"])
+    flagged = set((v["rule"], str(v["where"]).rsplit(":", 1)[-1]) for v in rep.violations)
+    for raw, v in provisional:
+        if (v["rule"], str(v["where"]).rsplit(":", 1)[-1]) in flagged:
+            continue        # reported in context already
+        rep.count("helper_sites_discharged_in_caller_context")
 
 
 PANIC_FNS = ("core::panicking::panic", "core::panicking::panic_fmt", "core::panicking::panic_explicit", "std::rt::begin_panic",
@@ -372,16 +416,22 @@ def analyse_body(facts, rep, b, is_parser, rules, reach=None):
             else:
                 rep.count("alloc_not_input_sized")
         # ---- raw index of the input slice -----------------------------------------------------------
-        if is_parser and ("ops::Index" in nm) and t["args"]:
+        if is_parser and (("ops::Index" in nm and sh in ("index", "index_mut")) or nm.endswith("<impl [T]>::split_at")) and len(t["args"]) == 2:
             base = strip_refs(b.term_of_operand(t["args"][0]))
-            if base[0] == "param" and b.local_ty(base[1]) in ("&[u8]",):
-                if cd is None:
-                    cd = control_deps(b)
-                idx = b.term_of_operand(t["args"][1])
-                if index_guarded(b, bb, base, idx, cd, P):
-                    rep.ok(R4, {"fn": b.name, "index": fmt(norm(idx))[:50], "guarded": True})
-                else:
-                    rep.violation(R4, b.name, "index:%s" % fmt(norm(idx))[:40], "%s indexes its input with %s without a dominating length test" % (b.name.rsplit("::", 1)[-1], fmt(norm(idx))[:60]), where)
+            while base[0] == "deref":
+                base = strip_refs(base[1])
+            if cd is None:
+                cd = control_deps(b)
+            idx = b.term_of_operand(t["args"][1])
+            if sh == "split_at":
+                idx = ("agg", "adt", "std::ops::RangeTo", "RangeTo", (idx,))
+            verdict = slice_access_ok(b, bb, base, idx, cd, P)
+            if verdict is None:
+                rep.count("index_of_non_input_slices")
+            elif verdict or (base[0] == "param" and sh != "split_at" and index_guarded(b, bb, base, b.term_of_operand(t["args"][1]), cd, P)):
+                rep.ok(R4, {"fn": b.name, "index": fmt(norm(idx))[:50], "guarded": True})
+            else:
+                rep.violation(R4, b.name, "index:%s" % fmt(norm(idx))[:40], "%s indexes its input with %s without a dominating length test" % (b.name.rsplit("::", 1)[-1], fmt(norm(idx))[:60]), where)
     # ---- asserts -------------------------------------------------------------------------------------
     for bb, t in b.asserts():
         m = t["msg"]
@@ -567,6 +617,250 @@ def overflow_guarded(b, bb, op, a, c, aty, cd, P):
     return True
 
 
+# ---- a small linear prover over non-negative atoms ---------------------------------------------------
+# Goal and hypotheses are inequalities  sum(c_i * atom_i) + c0 >= 0  in unbounded integers.  A sub-term enters
+# a linear form only when its machine arithmetic provably does not wrap (interval of the operands fits the
+# type; a subtraction's difference is itself proven non-negative), so the forms mean the same in checked and
+# unchecked builds.  Atoms are unsigned machine values: they are >= 0 and bounded by their interval.
+
+def _lin_add(a, b, k=1):
+    d = dict(a[0])
+    for t_, v in b[0].items():
+        d[t_] = d.get(t_, 0) + k * v
+    return ({t_: v for t_, v in d.items() if v}, a[1] + k * b[1])
+
+
+def slice_len(b, t, P, bb, cd, depth=0):
+    """Length of a slice expression derived from a `&[u8]` parameter, as a linear form over ('len', param)."""
+    t = strip_refs(t)
+    while t[0] == "deref":
+        t = strip_refs(t[1])
+    if depth > 12:
+        return None
+    if t[0] == "param" and b.local_ty(t[1]) in ("&[u8]", "&mut [u8]"):
+        return ({("len", t[1]): 1}, 0)
+    if t[0] == "call":
+        sh = t[1].rsplit("::", 1)[-1]
+        if "ops::Index" in t[1] and sh == "index" and len(t[2]) == 2:
+            base, idx = t[2]
+            if idx[0] == "agg" and idx[2] and idx[2].startswith("std::ops::Range"):
+                kind = idx[2].rsplit("::", 1)[-1]
+                if kind == "Range" and len(idx[4]) == 2:
+                    s_, e_ = lin(b, idx[4][0], P, bb, cd, depth + 1), lin(b, idx[4][1], P, bb, cd, depth + 1)
+                    return _lin_add(e_, s_, -1) if s_ and e_ else None
+                if kind == "RangeTo" and len(idx[4]) == 1:
+                    return lin(b, idx[4][0], P, bb, cd, depth + 1)
+                bl = slice_len(b, base, P, bb, cd, depth + 1)
+                if bl is None:
+                    return None
+                if kind == "RangeFrom" and len(idx[4]) == 1:
+                    s_ = lin(b, idx[4][0], P, bb, cd, depth + 1)
+                    return _lin_add(bl, s_, -1) if s_ else None
+                if kind == "RangeFull":
+                    return bl
+            return None
+        if sh in ("deref", "as_ref", "borrow", "as_slice", "clone", "into", "from") and len(t[2]) == 1:
+            return slice_len(b, t[2][0], P, bb, cd, depth + 1)
+    if t[0] == "field" and strip_refs(t[1])[0] == "call" and strip_refs(t[1])[1].endswith("<impl [T]>::split_at") and t[3] in (0, 1):
+        c = strip_refs(t[1])
+        mid = lin(b, c[2][1], P, bb, cd, depth + 1)
+        if mid is None:
+            return None
+        if t[3] == 0:
+            return mid
+        bl = slice_len(b, c[2][0], P, bb, cd, depth + 1)
+        return _lin_add(bl, mid, -1) if bl else None
+    return None
+
+
+def lin(b, t, P, bb=None, cd=None, depth=0, ty=None):
+    """Linear form of an unsigned integer term, or a single atom when its arithmetic may wrap."""
+    t = strip_refs(t)
+    while t[0] == "deref":
+        t = strip_refs(t[1])
+    atom = ({t: 1}, 0)
+    if ty is not None and ty_range(ty) is not None:
+        try:
+            lo_, hi_, _ = P.of(t, ty)
+        except (RecursionError, IndexError):
+            lo_, hi_ = ty_range(ty)
+        tr_ = ty_range(ty)
+        lo_, hi_ = max(lo_, tr_[0], 0), min(hi_, tr_[1])
+        old_ = P.memo.setdefault("rng", {}).get(t)
+        P.memo["rng"][t] = (lo_, hi_) if old_ is None else (max(lo_, old_[0]), min(hi_, old_[1]))
+    if depth > 14:
+        return atom
+    if t[0] == "const":
+        if isinstance(t[1], int) and not isinstance(t[1], bool):
+            return ({}, t[1])
+        return atom
+    if t[0] == "cast":
+        to_, from_ = t[2], t[3]
+        r = ty_range(to_)
+        if r is None or ty_range(from_) is None:
+            return atom
+        lo, hi, _ = P.of(t[1], from_)
+        f = lin(b, t[1], P, bb, cd, depth + 1, from_)
+        if lo < 0 and ty_range(from_)[0] == 0:
+            # the interval allows a wrapping subtraction; the form is usable only if that was excluded
+            inner = strip_refs(t[1])
+            if f == ({inner: 1}, 0):
+                return atom
+            lo = 0
+        if lo >= r[0] and hi <= r[1]:
+            return f
+        return atom
+    if t[0] == "call":
+        sh = t[1].rsplit("::", 1)[-1]
+        if sh in ("from", "into") and len(t[2]) == 1 and re.search(r"From<u(8|16|32|64|size)> for u(16|32|64|128|size)>", t[1]):
+            return lin(b, t[2][0], P, bb, cd, depth + 1, "u" + re.search(r"From<u(8|16|32|64|size)>", t[1]).group(1))
+        if sh == "len" and len(t[2]) == 1:
+            sl = slice_len(b, t[2][0], P, bb, cd, depth + 1)
+            if sl is not None:
+                return sl
+        if sh == "branch" and len(t[2]) == 1:
+            return atom
+        return atom
+    if t[0] == "un" and t[1] == "PtrMetadata":
+        sl = slice_len(b, t[2], P, bb, cd, depth + 1)
+        return sl if sl is not None else atom
+    if t[0] == "field" and t[1][0] == "bin" and t[1][1].endswith("WithOverflow") and t[3] == 0:
+        t = ("bin", t[1][1].replace("WithOverflow", ""), t[1][2], t[1][3], t[1][4] if len(t[1]) > 4 else None)
+    if t[0] == "bin":
+        op = t[1].replace("WithOverflow", "").replace("Unchecked", "")
+        aty = t[4] if len(t) > 4 else None
+        r = ty_range(aty) if aty else None
+        if r is None or r[0] < 0:
+            return atom
+        x, y = lin(b, t[2], P, bb, cd, depth + 1, aty), lin(b, t[3], P, bb, cd, depth + 1, aty if op not in ('Shl', 'Shr') else None)
+        res = None
+        if op == "Add":
+            res = _lin_add(x, y)
+        elif op == "Sub":
+            res = _lin_add(x, y, -1)
+        elif op == "Mul" and (not x[0] or not y[0]):
+            k, z = (x[1], y) if not x[0] else (y[1], x)
+            res = ({a_: v * k for a_, v in z[0].items()}, z[1] * k)
+        elif op == "Shl" and not y[0] and 0 <= y[1] < 64:
+            res = ({a_: v << y[1] for a_, v in x[0].items()}, x[1] << y[1])
+        if res is None:
+            return atom
+        lo, hi = lin_bounds(res, b, P)
+        if op == "Sub":
+            if lo >= 0:
+                return res
+            nest = P.memo.get("nest", 0)
+            if bb is not None and nest < 2:
+                P.memo["nest"] = nest + 1
+                try:
+                    if entails(b, bb, cd, P, res):
+                        return res
+                finally:
+                    P.memo["nest"] = nest
+            return atom
+        if hi <= r[1]:
+            return res
+        return atom
+    return atom
+
+
+def atom_range(a, b, P):
+    if a[0] == "len":
+        return (0, (1 << 63) - 1)
+    if a in P.memo.get("rng", {}):
+        return P.memo["rng"][a]
+    try:
+        lo, hi, _ = P.of(a, None)
+    except (RecursionError, IndexError):
+        return (0, (1 << 64) - 1)
+    return (max(lo, 0), hi)
+
+
+def lin_bounds(f, b, P):
+    lo = hi = f[1]
+    for a, c in f[0].items():
+        alo, ahi = atom_range(a, b, P)
+        lo += c * (alo if c > 0 else ahi)
+        hi += c * (ahi if c > 0 else alo)
+    return lo, hi
+
+
+def hypotheses(b, bb, cd, P, depth=0):
+    """The comparisons that hold whenever bb runs, as linear forms  h >= 0."""
+    key = ("hyp", bb, P.memo.get("nest", 0))
+    memo = P.memo
+    if key in memo:
+        return memo[key]
+    memo[key] = []
+    out = []
+    for (a_, s_, c_) in dom_guards(b, bb, cd):
+        ct = cond_truth(c_)
+        if not ct:
+            continue
+        term, truth = ct
+        while term[0] == "un" and term[1] == "Not":
+            term, truth = term[2], not truth
+        if term[0] != "bin" or term[1] not in ("Lt", "Le", "Gt", "Ge", "Eq", "Ne"):
+            continue
+        op = term[1]
+        if not truth:
+            op = {"Lt": "Ge", "Le": "Gt", "Gt": "Le", "Ge": "Lt", "Eq": "Ne", "Ne": "Eq"}[op]
+        l_, r_ = lin(b, term[2], P, a_, cd), lin(b, term[3], P, a_, cd)
+        if op == "Lt":
+            out.append(_lin_add(_lin_add(r_, l_, -1), ({}, 1), -1))
+        elif op == "Le":
+            out.append(_lin_add(r_, l_, -1))
+        elif op == "Gt":
+            out.append(_lin_add(_lin_add(l_, r_, -1), ({}, 1), -1))
+        elif op == "Ge":
+            out.append(_lin_add(l_, r_, -1))
+        elif op == "Eq":
+            out.append(_lin_add(r_, l_, -1))
+            out.append(_lin_add(l_, r_, -1))
+    memo[key] = out
+    return out
+
+
+def entails(b, bb, cd, P, goal, depth=0):
+    """goal >= 0 follows from the atoms' intervals, or from one or two dominating comparisons."""
+    if lin_bounds(goal, b, P)[0] >= 0:
+        return True
+    if depth > 8:
+        return False
+    hs = hypotheses(b, bb, cd, P, depth)
+    for h in hs:
+        if lin_bounds(_lin_add(goal, h, -1), b, P)[0] >= 0:
+            return True
+    for i in range(len(hs)):
+        for j in range(i + 1, len(hs)):
+            if lin_bounds(_lin_add(_lin_add(goal, hs[i], -1), hs[j], -1), b, P)[0] >= 0:
+                return True
+    return False
+
+
+def slice_access_ok(b, bb, base, idx, cd, P):
+    """True / False / None (base is not a slice of the input) for  base[idx]  and  base.split_at(idx)."""
+    bl = slice_len(b, base, P, bb, cd)
+    if bl is None:
+        return None
+    if idx[0] == "agg" and idx[2] and str(idx[2]).startswith("std::ops::Range"):
+        kind = idx[2].rsplit("::", 1)[-1]
+        if kind == "RangeFull":
+            return True
+        parts = [lin(b, x, P, bb, cd) for x in idx[4]]
+        if kind == "Range" and len(parts) == 2:
+            return entails(b, bb, cd, P, _lin_add(parts[1], parts[0], -1)) and entails(b, bb, cd, P, _lin_add(bl, parts[1], -1))
+        if kind in ("RangeTo", "RangeFrom") and len(parts) == 1:
+            return entails(b, bb, cd, P, _lin_add(bl, parts[0], -1))
+        if kind == "RangeInclusive":
+            return False if len(parts) != 2 else (entails(b, bb, cd, P, _lin_add(_lin_add(bl, parts[1], -1), ({}, 1), -1)))
+        return False
+    if idx[0] == "agg":
+        return False
+    i_ = lin(b, idx, P, bb, cd)
+    return entails(b, bb, cd, P, _lin_add(_lin_add(bl, i_, -1), ({}, 1), -1))
+
+
 def index_guarded(b, bb, base, idx, cd, P):
     pi = P.of(idx, "usize") if idx[0] != "agg" else None
     need = None
@@ -686,7 +980,16 @@ def loop_progress(b, lp):
         if t["k"] == "assert" and t["msg"]["kind"] == "Overflow":
             # counter increments such as `x += 1` on a condition variable
             pass
-    # can we go from head back to head avoiding all progress blocks?
+    # can we go from head back to head avoiding all progress blocks?  Path-sensitively first (a helper expanded
+    # in place returns `Ok(None)` on the path that ends the loop: that path never takes the `Some` arm) ...
+    from flow import enum_paths, PathLimit
+    try:
+        paths = enum_paths(b, max_paths=3000, start=head)
+        cyc = [p for p in paths if p.end == "loop" and getattr(p, "loop_to", None) == head and all(x in blocks for x in p.blocks)]
+        return not any(not (set(p.blocks) & prog) for p in cyc)
+    except (PathLimit, RecursionError):
+        pass
+    # ... else on the plain graph
     seen = set()
     st = [s for s in b.succs(head) if s in blocks]
     while st:
